@@ -13,7 +13,7 @@ def make(tier):
     P = Plan('C15', level='proof', design_ref='DESIGN.md section 5 C15')
     P.assumptions.append(IOS)
     P.not_decided += ['output_to_string / extract_from_string, stream output/input of enums, vectors, dims (iostream formatting and extraction: machine code in libstdc++)',
-                      'widen / narrow / to_std_wstring / from_std_wstring / codecvt (locale facets: machine code in libstdc++)', 'floating-point text round trips']
+                      'widen / narrow / to_std_wstring / from_std_wstring / codecvt (locale facets: machine code in libstdc++; fcppt::impl::codecvt run against an abstract facet model did not close: experiments/C15_codecvt; the silent truncation of narrow found there natively is repaired, /repo 2a5eceb)', 'floating-point text round trips']
     spec = ''
     jobs = []
     for n, w in TYPES:
